@@ -25,6 +25,8 @@ import numpy as np
 import z3
 
 ARR_SHAPES = {}   # name of an Arr constant -> list of shape entries (python ints / z3 Int terms); filled by aten.ATen
+FUNC_SHAPES = {}  # name of a sidecar contract function (fresh symbol) -> shape of its values
+TERM_SHAPES = {}  # z3 ast id of a composite Arr term -> shape entries (for sub-terms without a standard interpretation)
 MIN_ADMISSIBLE = 40
 MAX_SAMPLES = 400
 EPS64 = float(np.finfo(np.float64).eps)
@@ -335,6 +337,22 @@ def _ev(e, env, memo):
             mm = re.match(r"^(.*?)((?:_[A-Z])+)$", name)
             if mm and len(mm.group(2)) // 2 == len(ch) and mm.group(1) in OPS:
                 name = mm.group(1)
+            elif e.sort().name() == "Arr" and (e.get_id() in TERM_SHAPES or name in FUNC_SHAPES) and env.get("__opaque_ok__"):
+                # a sub-term without standard interpretation (solver output, loop-contract function, ...): an ARBITRARY value
+                # of the right shape, the same for every occurrence of the same term.  Samples using it can only support
+                # "the two sides agree whatever this sub-term is", never a counterexample.
+                shp = [x if isinstance(x, int) else _i(ev(x, env, memo)) for x in (TERM_SHAPES.get(e.get_id()) or FUNC_SHAPES[name])]
+                env["__opaque_used__"] = True
+                # the same value for the same function applied to numerically equal arguments (W(it) = W(m) when it = m)
+                argv = []
+                for c in ch:
+                    try:
+                        v = ev(c, env, memo)
+                        argv.append(repr(v.tolist()) if isinstance(v, np.ndarray) else repr(v))
+                    except (Unknown, Inadmissible):
+                        argv.append(c.sexpr())
+                h = (hash((name, tuple(argv))) ^ int(env.get("__opaque_seed__", 0))) % (2 ** 32)
+                return np.random.default_rng(h).standard_normal(shp)
             else:
                 raise Unknown(f"operator {name}")
         args = [ev(c, env, memo) for c in ch]
@@ -687,7 +705,7 @@ def _validate(obl, model, numeric, seed):
             exprs.append(v)
     consts = free_consts(exprs)
     consts.pop("I0!canon", None)
-    admissible, agree, unknown_hyps, errors = 0, 0, set(), {}
+    admissible, agree, unknown_hyps, errors, opaque_differs = 0, 0, set(), {}, 0
     extra = []
     gen = sample_envs(consts, ground, model, seed)
     tried = 0
@@ -700,9 +718,11 @@ def _validate(obl, model, numeric, seed):
             env, fam = next(gen)
         tried += 1
         env["__cmp__"] = []
+        env["__opaque_ok__"], env["__opaque_seed__"], env["__opaque_used__"] = True, tried, False
         try:
             okh = True
             memo = {}
+            _definitions(ground, env, consts)
             for hi, h in enumerate(ground):
                 try:
                     if not _b(ev(h, env, memo)):
@@ -724,6 +744,9 @@ def _validate(obl, model, numeric, seed):
             errors[str(ex)[:60]] = errors.get(str(ex)[:60], 0) + 1
             env.pop("__cmp__", None)
             continue
+        if differs and env.get("__opaque_used__"):
+            opaque_differs += 1   # not a counterexample (the opaque values may be unrealisable): the refutation stands
+            continue
         admissible += 1
         fams.add(fam)
         if differs:
@@ -737,13 +760,37 @@ def _validate(obl, model, numeric, seed):
         agree += 1
         if admissible >= MIN_ADMISSIBLE and len({f.split("+")[0] for f in fams}) >= 10 and tried >= 120:
             break
+    if opaque_differs:
+        return {"status": "unknown", "reason": f"the two sides differ on {opaque_differs} samples that give arbitrary values to sub-terms without "
+                                               "standard interpretation (not a counterexample, not an agreement)"}
     nf = len({f.split("+")[0] for f in fams})
     # 8 input families normally; when the path condition itself excludes most families (e.g. "largest singular value below
     # norm_eps" excludes the huge ones) the whole budget has been spent looking for them: then at least 3
-    if admissible >= MIN_ADMISSIBLE and (nf >= 8 or (tried >= MAX_SAMPLES and nf >= 3)):
+    if (admissible >= MIN_ADMISSIBLE and nf >= 8) or (tried >= MAX_SAMPLES and admissible >= 15 and nf >= 3):
         return {"status": "spurious", "admissible_samples": admissible, "families": sorted(fams), "samples_tried": tried,
                 "hypotheses_not_evaluable": len(unknown_hyps)}
+    if admissible == 0 and tried >= MAX_SAMPLES and not errors:
+        # no sampled input (16 families x shapes x boundary values of the parameters) satisfies the ground path condition under
+        # the standard interpretation: the path of this obligation instance is not reached by any of them
+        return {"status": "spurious", "admissible_samples": 0, "families": ["none: the path condition is false on every sampled input"],
+                "samples_tried": tried, "hypotheses_not_evaluable": len(unknown_hyps), "unreached_path": True}
     return {"status": "unknown", "reason": f"only {admissible} admissible samples in {tried} draws ({dict(list(errors.items())[:3])})"}
+
+
+def _definitions(ground, env, consts):
+    """ground hypotheses of the form  c == term  (c a free array constant: a havoc'd loop variable pinned by an invariant, a
+    result bound to a contract function): c takes the value of the term"""
+    for h in ground:
+        if z3.is_eq(h) and h.arg(0).sort().name() == "Arr":
+            a, b = h.arg(0), h.arg(1)
+            for c, t in ((a, b), (b, a)):
+                if z3.is_const(c) and c.decl().kind() == z3.Z3_OP_UNINTERPRETED and c.decl().name() in consts and not (
+                        z3.is_const(t) and t.decl().kind() == z3.Z3_OP_UNINTERPRETED):
+                    try:
+                        env[c.decl().name()] = ev(t, env, {})
+                    except (Unknown, Inadmissible):
+                        pass
+                    break
 
 
 def _boundary(extra, env, notes, fam, tried):
